@@ -15,6 +15,18 @@ def run(chk, tier):
                 'handed-back inputs positionally) and returns its result, every other continuation is an Unmock / default-impl arm or is '
                 'reported. Runtime half (R05.6): eval::eval only borrows the inputs and hands them back unchanged.')
     X.check_traits(chk, tier, chk.seed, {'C05'})
+    # R05.9 `with_types::<..>()` names the instantiation the generated method evaluates for the same type arguments in declaration order
+    # (type-level witness, compiled against this tree, never run)
+    import tywit
+    try:
+        rs = tywit.run('c05_')
+    except tywit.TywitError as e:
+        chk.ob('R05.9', 'witness harness builds /repo', False, site='build', unrecognised=True, what='tywit build failed', found=str(e)[-800:])
+        rs = []
+    for r in rs:
+        chk.ob('R05.9', 'witness %s: %s' % (r['name'], 'must not type-check (%s)' % r['expect'] if r['expect'] != 'ok' else 'the turbofish of with_types binds trait-level parameters first, then the method\'s, in declaration order (must compile)'), r['ok'],
+               site='witness:%s' % r['name'], what='witness %s: %s' % (r['name'], r['detail'][:120]), found=r['detail'], expected=r['expect'])
+    chk.floor('R05.9', 'with_types witnesses', len(rs), 2)
     F = load(chk, 'std')
     E.eval_table(chk, F, 'R05.6', 'std')
     E.lazy_rendering(chk, F, 'R05.7', 'std')
